@@ -342,8 +342,11 @@ def _run_replay(prop, path):
 
 def _run_jobs(prop, prop_name, tier, seed, t0):
     jobs = prop.jobs(tier)
+    only = os.environ.get('VERIF_ONLY_JOB')        # debugging aid: run a single job of the check
     tasks = []
     for ji, job in enumerate(jobs):
+        if only and job.name != only:
+            continue
         nshards = job.shards or NPROC
         if job.kind == 'hyp':
             nshards = max(1, min(nshards, job.n))
